@@ -21,15 +21,16 @@ META = {
     "technique": "Coq reference semantics (fuelled big-step, generic state-relation induction) + extracted-interpreter differential run against main",
     "text": "The documented C-like semantics of the sequential core is a Gallina interpreter (coq/Lang: exact 64-bit intermediates, truncating "
             "division, sign-of-dividend remainder, arithmetic shift, checked stores, row-major bounds-checked arrays, lexical scopes, private "
-            "frames). Machine-checked for every program, input and fuel: output only grows and an error cuts the run exactly at the failing step "
-            "(nothing after it), division/remainder/shift laws, `continue` runs the for-update, compound assignment equals its desugaring, and the "
+            "frames, plain structs as groups of member cells). Machine-checked for every program, input and fuel: output only grows and an error cuts the run exactly at the failing step "
+            "(nothing after it), division/remainder/shift laws, `continue` runs the for-update, compound assignment equals its desugaring, a whole-struct copy equals the member-by-member "
+            "assignments and leaves both sides independent (a member store touches no other member and no plain variable), and the "
             "two arithmetic paths of the implementation (int64 wrap-around and x87 long-double) equal exact arithmetic whenever the exact result "
             "fits int64. The interpreter is extracted to OCaml and run against /repo's main on generated programs printed from the same AST by "
             "the extracted printer; any difference in stdout or exit class is a violation with the program as replay.",
     "note": "Trusted: Coq kernel, no axioms (Print Assumptions closed); extraction (ExtrOcamlBasic, ExtrOcamlString) + OCaml driver; the Ref "
             "interpreter is the formal reading of docs/spec.md written by hand (no separate relational big-step yet); the tie is differential "
-            "testing over generated programs, restricted to the fragment outside the recorded findings (known_findings/C01.json); structs, strings and "
-            "interpolation contexts are not in Ref.",
+            "testing over generated programs, restricted to the fragment outside the recorded findings (known_findings/C01.json); structs have integer scalar / array members only (no nested structs, no by-value struct parameters); "
+            "strings and interpolation contexts are not in Ref.",
 }
 
 CONTEXTS = ["init", "assign", "cond", "index", "arg", "ret", "print", "compound"]
@@ -134,7 +135,9 @@ def run(rep):
             progs.append(sx); origin.append("corpus")
     feats = collections.Counter()
     for k in range(n_prog):
-        g = gen_core.Gen(rng_for(seed, "c01-prog", k), gen_core.Opts(extras=(k % 2 == 1)))
+        o = gen_core.Opts(extras=(k % 2 == 1))
+        o.structs = (k % 3 == 0)       # plain structs: declarations, member reads / stores (scalar and array members), whole-struct copy
+        g = gen_core.Gen(rng_for(seed, "c01-prog", k), o)
         progs.append(g.program()); origin.append("program")
         feats.update(g.feats)
     for k in range(n_ctx):
